@@ -40,14 +40,14 @@ def setx(v):
 def add(v):
     global log
     log = log + [v]
-    return len(log)
+    return 1
 def boom(v):
     global x
     x = v
     raise ValueError("boom")
 def call_back(f, v):
     before = x
-    got = f(v)
+    got = f(v=v)
     return [before, got, x]
 def mk():
     y = x
@@ -55,7 +55,7 @@ def mk():
         return (x, y)
     return inner
 def chain(f, v):
-    return [f(v), get()]
+    return [f(v=v), get()]
 def deco(f):
     def wrapper(*a, **kw):
         return f(*a, **kw)
@@ -109,52 +109,57 @@ def rd(v):
 def deep(v):
     # called back from the module; calls into the module again, which raises; own globals still resolve afterwards
     try:
-        {M}boom(v)
+        {M}boom(v=v)
     except ValueError:
         pass
     return x
+def shadow(v):
+    x = v + 1            # a LOCAL with the name of a module global, in a function whose locals are closure cells
+    def keep():
+        return x
+    return [{M}mk()(), keep()]
 class K:
     x = -1
-def run(ops):
+def run(op, v):
     global x, r, fresh
     loc = 1000
-    for op, v in ops:
+    for i in range(1):
         loc = loc + 1
         if op == 0:
             x = v
         elif op == 1:
-            r += [{M}setx(v)]
+            r += [{M}setx(v=v)]
         elif op == 2:
-            r += [{M}add(v)]
+            r += [{M}add(v=v)]
         elif op == 3:
             try:
-                {M}boom(v)
+                {M}boom(v=v)
             except ValueError:
                 r += ["caught"]
         elif op == 4:
-            r += [{M}call_back(own, v)]
+            r += [{M}call_back(own, v=v)]
         elif op == 5:
-            r += [{M}mk()()]
+            r += [{M}mk()(), shadow(v=v)]
         elif op == 6:
-            r += [{M}chain(rd, v)]
+            r += [{M}chain(rd, v=v)]
         elif op == 7:
-            k = {K}(v)
+            k = {K}(v=v)
             r += [k.bump(), K.x]
         elif op == 8:
             r += [pk.pget()]
-            pk.pset(v)
+            pk.pset(v=v)
         elif op == 9:
             fresh = v
         elif op == 10:
-            r += [{M}call_back(deep, v)]
+            r += [{M}call_back(deep, v=v)]
         # read-back after every operation: own global, own class, the local, what the module sees
         r += [(x, K.x, loc, {M}get(), pk.pget())]
 
 @event_trigger("go_{TAG}")
-def trig(ops=None, spawn=None, **kw):
-    run(ops)
+def trig(op=0, v=0, spawn=None, **kw):
+    run(op=op, v=v)
     if spawn is not None:
-        task.create(run, spawn)
+        task.create(run, op=spawn, v=7)
 '''
 
 
@@ -288,7 +293,7 @@ def isolation(o1: int, v1: int, o2: int, v2: int, o3: int, v3: int, o4: int, v4:
         with notrace():
             g = {"a": w.load("file.a", srcs["a"], extra={"X0": xa}), "b": w.load(bname, srcs["b"], extra={"X0": xb})}
         for i, (f, ops) in enumerate(stages):
-            w.fire("go_" + f, {"ops": ops, "spawn": [(spawn_op, 7)] if (spawn_op is not None and i == 1) else None})
+            w.fire("go_" + f, {"op": ops[0][0], "v": ops[0][1], "spawn": spawn_op if i == 1 else None})
         w.settle()
         names = {"a": "file.a", "b": bname, "m": "modules.m", "pk": "modules.pk", "pk.sub": "modules.pk.sub"}
         got = {}
@@ -300,18 +305,18 @@ def isolation(o1: int, v1: int, o2: int, v2: int, o3: int, v3: int, o4: int, v4:
     finally:
         w.close(); lg.removeHandler(h)
     # ---- CPython
-    cw = CpyWorld(FILES)
     with notrace():
+        cw = CpyWorld(FILES)
         cg = {"a": cw.script("file.a", srcs["a"], {"X0": xa}), "b": cw.script(bname, srcs["b"], {"X0": xb})}
     for i, (f, ops) in enumerate(stages):
-        cw.trig["go_" + f](ops=ops, spawn=[(spawn_op, 7)] if (spawn_op is not None and i == 1) else None)
+        cw.trig["go_" + f](op=ops[0][0], v=ops[0][1], spawn=spawn_op if i == 1 else None)
     exp = {"a": view(cg["a"]), "b": view(cg["b"]), "m": view(cw.mods["m"].__dict__), "pk": view(cw.mods["pk"].__dict__), "pk.sub": view(cw.mods["pk.sub"].__dict__)}
     ok = len(errs) == 0 and nctx == ["modules.m", "modules.pk", "modules.pk.sub"]
     for k in exp:
         ok = ok and got[k] is not None and veq(got[k], exp[k])
-    if not symbolic_mode():
+    if not symbolic_mode() or ctx.DEBUG:
         bad = [k for k in exp if got[k] != exp[k]]
-        detail(stages=stages, forms=[fa, fb], x0=[xa, xb], differing_contexts=bad, pyscript={k: got[k] for k in bad}, cpython={k: exp[k] for k in bad}, errors=[str(e[1])[:300] for e in errs], module_contexts=nctx)
+        detail(stages=stages, forms=[fa, fb], x0=[xa, xb], differing_contexts=bad, pyscript={k: got[k] for k in bad}, cpython={k: exp[k] for k in bad}, errors=[str(e[1])[-700:] for e in errs], module_contexts=nctx)
     return verdict(ok, True)
 
 
@@ -326,7 +331,7 @@ def trig(**kw):
     global r
     r += [("fired", x)]
 
-@state_trigger("int(pyscript.w) == x", state_hold_false=0)
+@state_trigger("int(pyscript.w) == x")
 @state_active("x != 100")
 def trig2(**kw):
     global r
@@ -336,9 +341,10 @@ def trig2(**kw):
 
 def trigger_ctx(xa: int, v: int) -> bool:
     """
-    pre: True
+    pre: 96 <= xa <= 104 and 96 <= v <= 104
     post: _
     """
+    # (the state value ends up in a string, so its digits are realised: a small window around the module's value 100)
     # a trigger decorated in file a whose action is wrapped by a decorator imported from module m (m.x == 100): the trigger and active
     # expressions are evaluated against file a's globals
     from vlib.world import mkworld
@@ -359,21 +365,22 @@ def trigger_ctx(xa: int, v: int) -> bool:
     if v == xa: exp.append(("fired", xa))
     if v == xa and xa != 100: exp.append(("fired2", xa))
     ok = veq(sorted(r, key=lambda t: t[0]), exp)
-    if not symbolic_mode():
+    if not symbolic_mode() or ctx.DEBUG:
         detail(x_in_file_a=xa, x_in_module=100, value=v, fired=r, expected=exp)
     return verdict(ok, len(exp) > 0)
 
 
-OPNAMES = ["own_global=v", "m.setx(v)", "m.add(v)", "m.boom(v) raises", "m.call_back(own)", "m.mk()()", "m.chain(rd)", "MK(v).bump()", "pk.pget/pset", "new global", "call_back(deep->boom)"]
+OPNAMES = ["own_global=v", "m.setx(v)", "m.add(v)", "m.boom(v) raises", "m.call_back(own)", "m.mk()() (+ from a function with a shadowing local)", "m.chain(rd)", "MK(v).bump()", "pk.pget/pset", "new global", "call_back(deep->boom)"]
 
 
 def obligations(tier):
     o = []
-    pairs = [(0, 2), (3, 1)] if tier == "quick" else [(a, b) for a in range(4) for b in range(4)]
+    pairs = [(0, 2), (3, 1)] if tier == "quick" else [(0, 2), (3, 1), (1, 3), (2, 0), (1, 1)]
     nops = 3 if tier == "quick" else 4
     for legacy in ((False,) if tier == "quick" else (False, True)):
         for (fa, fb) in pairs:
             for o1 in range(11):
+                if tier == "quick" and (o1 % 2 == 0) != (fa == 0): continue
                 o.append(Obl(f"C11.isolation.forms{fa}{fb}.first_{o1}{'.legacy' if legacy else ''}", __name__, "isolation",
                              {"legacy": legacy, "forms": [fa, fb], "o1": o1, "o2": None, "nops": nops, "bname": "file.b" if fa == 0 else "jupyter_7", "spawn": 4 if fa == 0 else 3}, timeout=1500,
                              desc=f"files a and b ({'Jupyter session' if fa else 'file'}) with the same global names, import forms {IMPORT_FORMS[fa][0].splitlines()[0]!r} / {IMPORT_FORMS[fb][0].splitlines()[0]!r}; "
@@ -383,5 +390,5 @@ def obligations(tier):
     for legacy in (False, True):
         o.append(Obl(f"C11.trigger_ctx.{'legacy' if legacy else 'default'}", __name__, "trigger_ctx", {"legacy": legacy}, timeout=900,
                      desc="trigger and active expressions of a function wrapped by a decorator imported from a module are evaluated against the globals of the file that wrote them",
-                     sym="file global x, state value - symbolic ints", real_loop=True, twin=True))
+                     sym="file global x, state value - symbolic ints in 96..104 (the module's x is 100)", real_loop=True, twin=True))
     return o
